@@ -14,6 +14,7 @@ REPL = [('—', '-'), ('⇒', '=>'), ('∀', 'for-all '), ('×', 'x'), ('σ', 's
 FRAGMENT = {
     "C03": "; on the converter fragment (Algo/Convert.v, tied by K3 exact term equality to the real converter) the schema quantifier is closed: C03F_convert_rt_simple / C03F_convert_rt_set / C03F_fragment_roundtrip / C03F_fragment_contains hold for EVERY type of EVERY fragment document, no exploration (side condition no_untagged where the fragment produces untagged enums); the flattened-union structs of anyOf are modelled in IR/Serde.v (de_flats) and finding F4 is explained on the model by Props/Flatten.v.",
     "C14": "; on the converter fragment under settings (Algo/ConvertS.v: replace / convert / patch inside the converter model, tied to the real converter by K3 exact term equality on (document, settings) pairs) the schema quantifier is closed: C14F_convert_everywhere (+ _nullable, _first_match, _ignores_annotations), C14F_replace_everywhere / _use_sites / _ignores_schema, C14F_patch_everywhere / _old_name_gone hold for EVERY fragment document and settings.",
+    "C11": ": FromStr = Deserialize in verdict and value, TryFrom x3 = FromStr, Display = the serialised string outside the recorded chrono class (keyed to exactly DateTime<Utc>), untagged enums try variants in declaration order on both sides; string formats and natives of the probe world are taken from the current convert.rs, and the native hypotheses (A1, Display = ser) are obliged per native type that appears in any dump of the run.",
     "C02": "; the run also checks that no fragment document has a name-reuse event (hook take_name_reuse) and ties a titled-root extension of the model (Algo/ConvertRoot.v, no theorem yet) by K3.",
 }
 
